@@ -452,6 +452,20 @@ def gen_id_block(lo: int, hi: int, noise: bool, rng: random.Random) -> dict:
     return {"family": "dispatch-ids", "id_block": [lo, hi], "knobs": {}, "client": client, "device": device, "net": {"cuts": {"mode": "coalesce"}}, "actors": [{"id": "a0", "at": {"t": 0.0}, "steps": steps}], "events": events, "end": 50.0, "max_turns": 100000}
 
 
+def gen_pong_subscriber(rng: random.Random) -> dict:
+    """An idle link with a short keepalive: the library pings, the device answers - and something is subscribed to
+    PingResponse (an application-level ping, a diagnostics hook): every answer is an incoming message like any other."""
+    K = pick(rng, [0.5, 1.0, 2.0])
+    client: dict = {"addresses": ["10.0.0.5"], "keepalive": K}
+    device: dict = {}
+    gen_transport(rng, client, device, noise_p=0.3)
+    steps = [{"do": "connect", "login": False}, {"do": "add_cb", "sid": "s0", "types": ["PingResponse"] + rng.sample(SUB_TYPES, rng.randint(0, 2))}, {"do": "sleep", "d": K * pick(rng, [3.5, 6.2])}, {"do": "disconnect"}]
+    events = []
+    if rng.random() < 0.5:
+        events.append({"at": {"t": K * 2.4}, "do": "dev", "act": {"msgs": [["PingResponse", {}]], "latency": 0.0}})  # an unsolicited one
+    return {"family": "dispatch-pong", "knobs": gen_knobs(rng), "client": client, "device": device, "net": {"cuts": gen_cuts(rng), "c2d_latency": 0.001, "d2c_latency": [pick(rng, [0.0, 0.001])]}, "actors": [{"id": "a0", "at": {"t": 0.0}, "steps": steps}], "events": events, "end": 50.0}
+
+
 def gen_every_defined(rng: random.Random) -> dict:
     """Every defined type id once (the lowest and the highest included), a subscriber registered for each of them."""
     t = _table()
@@ -494,6 +508,8 @@ class C12(CheckBase):
             yield gen_early_subscriber(rng)
         elif idx % 24 == 9:
             yield gen_every_defined(rng)
+        elif idx % 48 == 21:
+            yield gen_pong_subscriber(rng)
         elif idx % 40 == 7:
             lo = rng.randrange(0, 65536 - 512)
             yield gen_id_block(lo, lo + 512, rng.random() < 0.3, rng)
